@@ -58,6 +58,7 @@ type oblReport struct {
 }
 
 type fnReport struct {
+	Role string `json:"role,omitempty"`
 	Name        string         `json:"name"`
 	Obligations int            `json:"obligations"`
 	Discharged  int            `json:"discharged"`
@@ -218,6 +219,7 @@ func runCheck(prop string, ps *PropSpec, tier, repo string, seed int, verbose bo
 	var solverMs int64
 	var bindFailures []string
 
+	autoAdded := map[string]bool{}
 	lemmasNeeded := map[string]bool{}
 	lemmasProved := map[string]bool{}
 	funcs := append([]string{}, ps.Funcs...)
@@ -273,6 +275,26 @@ func runCheck(prop string, ps *PropSpec, tier, repo string, seed int, verbose bo
 			bindFailures = append(bindFailures, fmt.Sprintf("bind.%s: contract does not bind to the code: %v", short, err))
 			continue
 		}
+		// contracts of repository callees used at call sites are part of the proof: verify them too
+		// (transitively), unless they are declared trusted or come from /verif/specs
+		for _, used := range sortedKeys(vc.contractUse) {
+			ucon := p.CS.Funcs[used]
+			ufn := p.Funcs[used]
+			if ucon == nil || ucon.Trusted || p.CS.Assumed[used] || ufn == nil || ufn.Blocks == nil || !p.inRepoPkg(pkgOf(ufn)) {
+				continue
+			}
+			us := p.shortName(used)
+			seen := false
+			for _, f := range funcs {
+				if f == us {
+					seen = true
+				}
+			}
+			if !seen {
+				funcs = append(funcs, us)
+				autoAdded[us] = true
+			}
+		}
 		// keep the obligations of this property
 		var keep []*Obl
 		for _, o := range vc.obls {
@@ -284,6 +306,9 @@ func runCheck(prop string, ps *PropSpec, tier, repo string, seed int, verbose bo
 		vc.obls = keep
 		vc.Discharge(timeout, 16, "")
 		fr := fnReport{Name: short, Instrs: vc.nInstr, Abstracted: vc.nAbstract, AbstractedW: vc.abstracted, Notes: vc.notes, Loops: len(vc.loops), Mode: "mathematical integers with generated no-overflow obligations"}
+		if autoAdded[short] {
+			fr.Role = "callee whose contract a function of this property relies on (added automatically)"
+		}
 		if con.NoOvf {
 			fr.Mode = "mathematical integers; machine arithmetic treated as mathematical (no overflow obligations)"
 		}
